@@ -32,13 +32,11 @@ OBLIGATIONS = [
     "SkVerif.C19.rerun_performs_no_fits",
     "SkVerif.C19.overwrite_recomputes_all",
     "SkVerif.C19.uninterrupted_log_exactly_once",
-    "SkVerif.C19.resume_registry_complete_partial",
-    "SkVerif.C19.registry_covers_when_object_reused",
-    "SkVerif.C19.resume_registry_incomplete_witness",
-    "SkVerif.C19.ram_key_collision_witness",
-    "SkVerif.C19.ram_collision_breaks_honesty_witness",
+    "SkVerif.C19.resume_registry_complete",
+    "SkVerif.C19.registry_names_only_items",
     "SkVerif.C19.mkWork_keys_injective",
     "SkVerif.C19.validate_ok_names_nodup",
+    "SkVerif.C19.original_ram_key_collision",
 ]
 TRUSTED = [
     "hand-written model SkVerif/Model/Orch.lean of Orchestrator.fit_predict / _iter and of the two result stores",
@@ -59,10 +57,10 @@ RULE = ("exhaustive small scope: for fixed small configurations, every failure p
         "non-trivial = at least one run completed and stored a record")
 LEVEL_TEXT = ("proof (Lean 4) of the skip/fit/save/predict/save logic of Orchestrator.fit_predict for all work lists, failure "
               "points, option combinations and run sequences, on an executable model tied to the code by differential correspondence")
-LEVEL_NOTE = ("proved for the model: exactly one honest record per key, resume completes to the uninterrupted store without touching "
-              "completed entries, re-run performs no calls, overwrite recomputes all; registry completeness after resume only under "
-              "the reused-results-object hypothesis (known finding: registry lost after crash + new results object). Observed only: "
-              "csv/pickle round trips, cv splitters, clone freshness")
+LEVEL_NOTE = ("proved for the model (code after fixes 027a939, 23c2285), for HDD and RAM stores: exactly one honest record per key, "
+              "resume completes to the uninterrupted store (records, saved strategies, registry, master file) without touching "
+              "completed entries, re-run performs no calls, overwrite recomputes all. Observed only: csv/pickle round trips "
+              "(known finding: numeric-string labels read back as numbers), cv splitters, clone freshness")
 TECHNIQUE = "Lean 4 theorem proving + differential correspondence with counting/failing estimators"
 
 _ERR = {"_Inject": "E:inject", "NotImplementedError": "E:notimpl", "ValueError": "E:value"}
